@@ -183,7 +183,7 @@ func AnalyseLocks(fns []*ssa.Function) *LockAnalysis {
 					recv := Render(cs.Call.Args[0])
 					for k, m := range at {
 						if k.Base == recv {
-							tr[LockID{k.Field, f.Params[0].Name()}] = m
+							tr[LockID{k.Field, Render(f.Params[0])}] = m
 						}
 					}
 				}
